@@ -333,7 +333,7 @@ func fieldsOf(m *dhcpv4.DHCPv4) string {
 // transmitted replies whose IP header checksum or total length is wrong.
 func (in *inst) fpSweep() map[string]any {
 	st := in.fp
-	res := map[string]any{"ran": false, "bad": 0, "first": -1, "tx": 0}
+	res := map[string]any{"ran": false, "bad": 0, "first": -1, "tx": 0, "passmod": 0, "firstol": -1}
 	c := 0
 	for k := 1; k <= in.s.NClients; k++ {
 		if u, ok := in.lastAck[k]; ok && u >= 0 {
@@ -371,6 +371,32 @@ func (in *inst) fpSweep() map[string]any {
 		}
 	}
 	res["bad"], res["first"], res["tx"] = bad, first, tx
+	// every option-area length from the bare minimum to beyond the classic 300-byte BOOTP size: the program
+	// decides from this length whether its reply fits, before it rewrites the frame in place
+	passmod, firstol := 0, -1
+	for _, msg := range []string{"DISCOVER", "REQOWN"} {
+		for ol := 4; ol <= 130; ol++ {
+			pp := FPProbe{C: c, Msg: msg, OptLen: ol, IHL: 5, Layout: "first"}
+			f := in.s.fpFrame(pp, in.s.unitIP(in.lastAck[c]), 0x5eed0002)
+			v, after, _, err := st.drv.Run("xdp", f, 0)
+			if err != nil {
+				panic(err)
+			}
+			switch {
+			case v == 3 && len(after) >= 34:
+				tx++
+				if ipChecksum(after[14:34]) != 0 || int(binary.BigEndian.Uint16(after[16:])) != len(after)-14 {
+					bad++
+				}
+			case v != 3 && string(after) != string(f):
+				passmod++
+				if firstol < 0 {
+					firstol = ol
+				}
+			}
+		}
+	}
+	res["bad"], res["tx"], res["passmod"], res["firstol"] = bad, tx, passmod, firstol
 	return res
 }
 
